@@ -1462,6 +1462,154 @@ pub fn check_persistence(rec: &RunRecord) -> Vec<Violation> {
     dedup(out)
 }
 
+
+// ======================================================================================= dynamic lanes
+
+/// Runs on a `ConnectorAgent` (focus DYN): peer 0 is the only writer, so the lanes' histories are the fold of its
+/// command stream (take / drop in the documented key order). Judged: nothing a remote reads was invented, and at
+/// quiescence every remote that linked, asked to sync and got `synced` holds exactly the lane's final state.
+pub fn check_dynlanes(rec: &RunRecord) -> Vec<Violation> {
+    let mut out = vec![];
+    let sc = &rec.scenario;
+    for p in &rec.panics {
+        out.push(Violation::new("C04", "C04.panic", &p.node.trim_end_matches(char::is_numeric).to_string(), format!("node {} panicked at step {}: {}", p.node, p.step, p.message)));
+    }
+    let Some(qs) = rec.quiescent_step else { return out };
+    if !matches!(sc.ending, Ending::Stop | Ending::Timeout) || rec.step_limit_hit {
+        return out;
+    }
+    let agent_up = rec.agent_ends.first().map(|e| e.as_ref().map(|e| e.step > qs).unwrap_or(true)).unwrap_or(false);
+    if !agent_up {
+        out.push(Violation::new("C04", "C04.dyn.agent_ended", "", format!("the connector agent ended before quiescence: {:?}", rec.agent_ends.first())));
+        return out;
+    }
+    // The writer's commands, in order; all of them must have been written completely.
+    let writer_ok = rec.hist.sent.iter().filter(|s| s.peer == 0 && s.epoch == 0).all(|s| s.ok && s.end <= qs) && !rec.stuck_writers.contains(&0);
+    let mut val: Option<i32> = None;
+    let mut vals_sent: BTreeSet<i32> = BTreeSet::new();
+    let mut map: BTreeMap<i32, i32> = BTreeMap::new();
+    let mut pairs_sent: BTreeSet<(i32, i32)> = BTreeSet::new();
+    for s in rec.hist.sent.iter().filter(|s| s.peer == 0 && s.epoch == 0 && s.ok) {
+        if let Op::Cmd { lane, body } = &s.op {
+            let b = body.trim();
+            if lane == "val" {
+                if let Ok(v) = b.parse::<i32>() {
+                    val = Some(v);
+                    vals_sent.insert(v);
+                }
+            } else if lane == "map" {
+                if let Some(r) = b.strip_prefix("@take(").and_then(|r| r.strip_suffix(')')) {
+                    if let Ok(n) = r.trim().parse::<usize>() {
+                        let keep: Vec<i32> = map.keys().copied().take(n).collect();
+                        map.retain(|k, _| keep.contains(k));
+                    }
+                } else if let Some(r) = b.strip_prefix("@drop(").and_then(|r| r.strip_suffix(')')) {
+                    if let Ok(n) = r.trim().parse::<usize>() {
+                        let gone: Vec<i32> = map.keys().copied().take(n).collect();
+                        map.retain(|k, _| !gone.contains(k));
+                    }
+                } else {
+                    match parse_map_event("map", b.as_bytes()) {
+                        Some(MapEv::Update(k, v)) => {
+                            if let Ok(k) = k.parse::<i32>() {
+                                map.insert(k, v);
+                                pairs_sent.insert((k, v));
+                            }
+                        }
+                        Some(MapEv::Remove(k)) => {
+                            if let Ok(k) = k.parse::<i32>() {
+                                map.remove(&k);
+                            }
+                        }
+                        Some(MapEv::Clear) => map.clear(),
+                        None => {}
+                    }
+                }
+            }
+        }
+    }
+    let lanes_opened = rec.truth.first().map(|t| t.iter().filter(|(_, e)| matches!(e, TruthEv::Start)).count()).unwrap_or(0);
+    if lanes_opened < 2 {
+        out.push(Violation::new("C04", "C04.dyn.lanes_not_opened", "", format!("only {lanes_opened} of the 2 lanes requested in on_start were opened")));
+        return out;
+    }
+    for peer in sc.peers.iter() {
+        let info = peer_info(rec, peer.id);
+        let reliable = info.closed_read.is_none() && info.closed_write.is_none() && !info.write_failed && !rec.frozen_peers.contains(&peer.id);
+        for lane in ["val", "map"] {
+            let frames: Vec<&Frame> = rec.hist.frames.iter().filter(|f| f.epoch == 0 && f.peer == peer.id && f.lane == lane && f.step <= qs).collect();
+            // Nothing invented.
+            for f in &frames {
+                if let FrameKind::Event(body) = &f.kind {
+                    if lane == "val" {
+                        let t = std::str::from_utf8(body).unwrap_or("?").trim().to_string();
+                        if !t.is_empty() {
+                            match t.parse::<i32>() {
+                                Ok(v) if vals_sent.contains(&v) => {}
+                                _ => out.push(Violation::new("C01", "C01.dyn.invented", "value", format!("peer {} lane val: event body {t:?} at step {} is not a value the writer sent", peer.id, f.step))),
+                            }
+                        }
+                    } else if let Some(MapEv::Update(k, v)) = parse_map_event("map", body) {
+                        if !k.parse::<i32>().map(|k| pairs_sent.contains(&(k, v))).unwrap_or(false) {
+                            out.push(Violation::new("C02", "C02.dyn.invented", "update", format!("peer {} lane map: update {k} -> {v} at step {} was never sent by the writer", peer.id, f.step)));
+                        }
+                    } else if parse_map_event("map", body).is_none() {
+                        out.push(Violation::new("C02", "C02.dyn.invented", "undecodable", format!("peer {} lane map: undecodable event body {:?} at step {}", peer.id, body_text(body), f.step)));
+                    }
+                }
+            }
+            // Convergence of a remote that linked, synced and stayed.
+            let asked_sync = peer.ops.iter().any(|o| matches!(o, Op::Sync { lane: l } if l == lane));
+            let unlinked_itself = peer.ops.iter().any(|o| matches!(o, Op::Unlink { lane: l } if l == lane));
+            let is_writer = peer.id == 0;
+            let last_linked = frames.iter().rposition(|f| matches!(f.kind, FrameKind::Linked));
+            let Some(start) = last_linked else { continue };
+            let session = &frames[start..];
+            if session.iter().any(|f| matches!(f.kind, FrameKind::Unlinked(_))) || unlinked_itself || !reliable || !writer_ok {
+                continue;
+            }
+            let synced = session.iter().any(|f| matches!(f.kind, FrameKind::Synced));
+            // The writer linked both lanes before its first command: it has seen every change.
+            if !(is_writer || (asked_sync && synced)) {
+                continue;
+            }
+            if lane == "val" {
+                let last = session.iter().rev().find_map(|f| match &f.kind {
+                    FrameKind::Event(b) => std::str::from_utf8(b).ok().and_then(|t| t.trim().parse::<i32>().ok()),
+                    _ => None,
+                });
+                if val.is_some() && last != val {
+                    out.push(Violation::new("C01", "C01.dyn.final", "", format!("peer {} lane val: last value received {:?} but the last value commanded is {:?} (dynamic lane of a connector agent)", peer.id, last, val)));
+                }
+            } else {
+                let mut replica: BTreeMap<i32, i32> = BTreeMap::new();
+                for f in session {
+                    if let FrameKind::Event(b) = &f.kind {
+                        match parse_map_event("map", b) {
+                            Some(MapEv::Update(k, v)) => {
+                                if let Ok(k) = k.parse::<i32>() {
+                                    replica.insert(k, v);
+                                }
+                            }
+                            Some(MapEv::Remove(k)) => {
+                                if let Ok(k) = k.parse::<i32>() {
+                                    replica.remove(&k);
+                                }
+                            }
+                            Some(MapEv::Clear) => replica.clear(),
+                            None => {}
+                        }
+                    }
+                }
+                if replica != map {
+                    out.push(Violation::new("C02", "C02.dyn.replica", if is_writer { "writer" } else { "synced_reader" }, format!("peer {} lane map: replica {:?} but the writer's commands (take / drop in key order) add up to {:?} (dynamic lane of a connector agent)", peer.id, replica, map)));
+                }
+            }
+        }
+    }
+    dedup(out)
+}
+
 // ======================================================================================= C20
 
 /// Introspection oracle: at every idle point the reported uplink counts equal the number of
